@@ -10,6 +10,7 @@ import Emboss.Lemmas.Lr1Fast
 import Emboss.Lemmas.Lr1Term
 import Emboss.Lemmas.Lr1GenValid
 import Emboss.Lemmas.Lr1GenFuelBfs
+import Emboss.Lemmas.Lr1GenReduced
 import Emboss.Lemmas.Lr1TermCex
 import Emboss.Lemmas.Lr1EmbossRuns
 namespace Emboss.Lr1
@@ -209,6 +210,36 @@ theorem C08_error_position {G : Grammar} {A : Automaton} {C : Cert} (hv : Valid 
     simp [Nat.lt_succ_of_le hj]
   · exact no_sentence_of_error hv h (fun _ _ => rfl)
 
+/-- **The hypothesis `Reduced G` is checkable.**  `Gen.reducedB G` — the marking loop for
+productive nonterminals, run by the driver (op `REDUCED`) for every grammar whose tables are
+validated, the two Emboss grammars included, and compared with the harness's own oracle — implies
+`Reduced G`. -/
+theorem C08_reduced_check_sound {G : Grammar} (h : Gen.reducedB G = true) : Reduced G :=
+  reducedB_sound h
+
+/-- **Error position, all hypotheses executable**: tables that pass the compiled validator, for a
+grammar that passes the productivity check, report every syntax error at the first token no
+sentence can continue with. -/
+theorem C08_error_position_checked {G : Grammar} {A : Automaton} {C : Cert}
+    (hv : validFast G A C = true) (hr : Gen.reducedB G = true)
+    {w : List Token} {fuel : Nat} {code : Option Nat} {i s : Nat} {e : List Nat}
+    (h : run A fuel w = .error code i s e) :
+    ViablePrefix G (w.take i) ∧
+    (i < w.length → ∀ v, ¬ Sentence G (w.take (i + 1) ++ v)) ∧
+    ¬ Sentence G w :=
+  C08_error_position (C08_validator_sound hv) (C08_reduced_check_sound hr) h
+
+/-- **Error position for the generator model**: every conflict-free output of `gen` for a
+grammar that passes the productivity check. -/
+theorem C08_gen_error_position {G : Grammar} {o : Gen.Out} (h : gen G = some o) (hW : WfG G)
+    (hc : o.conflicts = false) (hr : Gen.reducedB G = true)
+    {w : List Token} {fuel : Nat} {code : Option Nat} {i s : Nat} {e : List Nat}
+    (he : run o.aut fuel w = .error code i s e) :
+    ViablePrefix G (w.take i) ∧
+    (i < w.length → ∀ v, ¬ Sentence G (w.take (i + 1) ++ v)) ∧
+    ¬ Sentence G w :=
+  C08_error_position (C08_gen_valid h hW hc) (C08_reduced_check_sound hr) he
+
 /-! ### non-vacuity and the counterexample (tables regenerated from the real lr1.py) -/
 open Examples
 
@@ -238,6 +269,8 @@ example : (gen exG).map (fun o => (o.conflicts, o.cert.items.size)) = some (fals
 example : WfG exG ∧ (gen exG).map (·.conflicts) = some false := ⟨by decide, by decide +kernel⟩
 example : (gen ⟨2, [⟨2, [2, 3, 2]⟩, ⟨2, [4]⟩], 1, 0⟩).map (·.conflicts) = some true := by decide +kernel
 example : (Gen.closure exC [⟨2, 0, 0⟩]).isSome = true := by decide
+-- test: the productivity check accepts the example grammar and rejects the F10 grammar
+example : Gen.reducedB exG = true ∧ Gen.reducedB f10G = false := by decide
 example : Reduced exG :=
   ⟨by
     have hA : Productive exG 3 := ⟨.node ⟨3, []⟩ [], ParseTree.node _ _ (by decide) (by simp) rfl, rfl⟩
